@@ -30,3 +30,100 @@ func VerifParseNoVisit(log logger.Log, source logger.Source, options Options) (s
 	})
 	return stmts, p.loadNameFromRef, ok
 }
+
+// VerifScopeOp is one step of the scope analysis, in the order the parse pass performs them:
+//
+//	'(' pushScopeForParsePass(Kind) (UseStrict: the scope starts with a "use strict" directive), ')' popScope,
+//	'd' declareSymbol(Kind, Name), 'a' the "arguments" step of parseFn, 'n' newSymbol(SymbolOther, Name),
+//	'g' newSymbol(SymbolOther, Name) appended to Generated, 'r' an identifier reference (findSymbol in the visit pass).
+type VerifScopeOp struct {
+	Op        byte
+	Kind      uint8
+	Name      string
+	UseStrict bool
+}
+
+type VerifScopeResult struct {
+	ModuleScope *js_ast.Scope
+	Symbols     []ast.Symbol
+	Refs        []ast.Ref // what findSymbol returned for every 'r'
+	DeclRefs    []ast.Ref // what declareSymbol / newSymbol returned for every 'd' / 'n'
+}
+
+// VerifRunScopeOps runs a sequence of scope operations on the real routines: pushScopeForParsePass, declareSymbol,
+// newSymbol and popScope for the parse pass, then prepareForVisitPass (strict mode of ES modules, hoistSymbols),
+// then pushScopeForVisitPass, findSymbol and popScope for the visit pass. The three assignments that belong to
+// parseStmtsUpTo ("use strict"), parseClass (class bodies are strict) and parseFn ("arguments") are repeated here
+// because those routines cannot be called without source text. The operations must be balanced.
+func VerifRunScopeOps(log logger.Log, ops []VerifScopeOp, esm bool, useStrict bool) (res VerifScopeResult) {
+	contents := make([]byte, len(ops)+8)
+	for i := range contents {
+		contents[i] = ' '
+	}
+	source := logger.Source{Contents: string(contents), KeyPath: logger.Path{Text: "/x.js", Namespace: "file"},
+		PrettyPaths: logger.PrettyPaths{Abs: "/x.js", Rel: "x.js"}}
+	options := Options{}
+	p := newParser(log, source, js_lexer.NewLexer(log, source, options.ts), &options)
+	if useStrict {
+		p.currentScope.StrictMode = js_ast.ExplicitStrictMode
+	}
+	for i, op := range ops {
+		loc := logger.Loc{Start: int32(i + 1)}
+		switch op.Op {
+		case '(':
+			kind := js_ast.ScopeKind(op.Kind)
+			p.pushScopeForParsePass(kind, loc)
+			if kind == js_ast.ScopeClassBody && p.currentScope.StrictMode == js_ast.SloppyMode {
+				p.currentScope.StrictMode = js_ast.ImplicitStrictModeClass
+			}
+			if op.UseStrict {
+				p.currentScope.StrictMode = js_ast.ExplicitStrictMode
+				p.currentScope.UseStrictLoc = loc
+				if p.currentScope.Kind == js_ast.ScopeFunctionBody &&
+					p.currentScope.Parent.Kind == js_ast.ScopeFunctionArgs &&
+					p.currentScope.Parent.StrictMode == js_ast.SloppyMode {
+					p.currentScope.Parent.StrictMode = js_ast.ExplicitStrictMode
+					p.currentScope.Parent.UseStrictLoc = loc
+				}
+			}
+		case ')':
+			p.popScope()
+		case 'd':
+			res.DeclRefs = append(res.DeclRefs, p.declareSymbol(ast.SymbolKind(op.Kind), loc, op.Name))
+		case 'a':
+			if _, ok := p.currentScope.Members["arguments"]; !ok {
+				ref := p.declareSymbol(ast.SymbolArguments, loc, "arguments")
+				p.symbols[ref.InnerIndex].Flags |= ast.MustNotBeRenamed
+			}
+		case 'n':
+			res.DeclRefs = append(res.DeclRefs, p.newSymbol(ast.SymbolOther, op.Name))
+		case 'g':
+			ref := p.newSymbol(ast.SymbolOther, op.Name)
+			p.currentScope.Generated = append(p.currentScope.Generated, ref)
+		}
+	}
+	if esm {
+		p.esmExportKeyword = logger.Range{Loc: logger.Loc{Start: 0}, Len: 1}
+	}
+	p.prepareForVisitPass()
+	for i, op := range ops {
+		loc := logger.Loc{Start: int32(i + 1)}
+		switch op.Op {
+		case '(':
+			p.pushScopeForVisitPass(js_ast.ScopeKind(op.Kind), loc)
+		case ')':
+			p.popScope()
+		case 'r':
+			res.Refs = append(res.Refs, p.findSymbol(loc, op.Name).ref)
+		}
+	}
+	res.ModuleScope = p.moduleScope
+	res.Symbols = p.symbols
+	return
+}
+
+// VerifCanMergeSymbols is canMergeSymbols for a JavaScript file (no TypeScript).
+func VerifCanMergeSymbols(scopeKind uint8, existing uint8, new uint8) int {
+	p := &parser{}
+	return int(p.canMergeSymbols(&js_ast.Scope{Kind: js_ast.ScopeKind(scopeKind)}, ast.SymbolKind(existing), ast.SymbolKind(new)))
+}
